@@ -16,7 +16,7 @@ import random
 import numpy as np
 
 from .. import archetypes, boot, reader, sysrun
-from ..seams import World
+from ..seams import World, _heavy_mass
 from ..simrng import Scheduler, SimRng
 
 LEVEL = "exploration"
@@ -70,7 +70,7 @@ def _member_masses(ast):
             with w:
                 mol = g.Molecule(m.text())
                 mg = mol.generate(rng=SimRng(w.sched))
-                vals.add(round(float(mg.weight), 6))
+                vals.add(round(_heavy_mass(mg), 6))
         out.append(vals)
     return out
 
